@@ -54,7 +54,26 @@ def build_base(world, nprior, coarse=False):
 
 
 def make_op_fn(t, op, base, actor_idx):
-    """Returns a zero-arg callable performing the op the documented way; its return value tells whether a commit was attempted."""
+    """Returns a zero-arg callable performing the op the documented way; its return value tells whether a commit was attempted.
+    With op['then'] the actor performs a second operation through the SAME handle; the callable then returns one (outcome, value) per operation."""
+    if "then" in op:
+        f1 = _make_single(t, {k: v for k, v in op.items() if k != "then"}, base, actor_idx)
+        f2 = _make_single(t, op["then"], base, actor_idx + 50)
+
+        def both():
+            out = []
+            for f in (f1, f2):
+                try:
+                    out.append(("ok", f()))
+                except Exception as e:  # noqa
+                    out.append(("raise", e))
+            return out
+
+        return both
+    return _make_single(t, op, base, actor_idx)
+
+
+def _make_single(t, op, base, actor_idx):
     kind = op["op"]
     files = sorted(current_snapshot(base)["files"]) if current_snapshot(base) else []
     snaps = base["snapshots"]
@@ -169,16 +188,36 @@ def check_refinement(world, base, ops, run, topo):
     fs = world.fs()
     prev = base
     flips_by_actor = collections.Counter()
-    tag = "+".join(sorted({o["op"] for o in ops}))
+    # per-actor sequences: operations, their outcomes, and the operations that were acknowledged (in order)
+    op_seq, res_seq, idx_seq = {}, {}, {}
+    for aidx, op in enumerate(ops):
+        if "then" in op:
+            op_seq[aidx] = [{k: v for k, v in op.items() if k != "then"}, op["then"]]
+            idx_seq[aidx] = [aidx, aidx + 50]
+        else:
+            op_seq[aidx] = [op]
+            idx_seq[aidx] = [aidx]
+        oc, val = run.outcomes[aidx] if aidx < len(run.outcomes) else ("ok", None)
+        if "then" in op and oc == "ok" and isinstance(val, list):
+            res_seq[aidx] = val
+        else:
+            res_seq[aidx] = [(oc, val)] + ([("raise", RuntimeError("not run"))] if "then" in op else [])
+    acked = {a: [j for j, (oc, val) in enumerate(res_seq[a]) if oc == "ok" and not (op_seq[a][j]["op"] == "delete_snapshot" and val is False) and op_seq[a][j]["op"] != "noop"] for a in op_seq}
     for k, (step, aidx, content) in enumerate(run.flips):
+        nth = flips_by_actor[aidx]
         flips_by_actor[aidx] += 1
-        op = ops[aidx]
+        if nth >= len(acked.get(aidx, [])):
+            j = min(nth, len(op_seq[aidx]) - 1)
+        else:
+            j = acked[aidx][nth]
+        op = op_seq[aidx][j]
+        model_idx = idx_seq[aidx][j]
         try:
             v = read_view(fs, metadata_file=content)
         except ReadError as e:
             vios.append((f"flip-to-unreadable-version/{op['op']}", f"flip #{k + 1} by actor {aidx} ({op['op']}) names {content}: {e}"))
             return vios
-        exp = expected_after(prev, op, base, aidx)
+        exp = expected_after(prev, op, base, model_idx)
         ids = [s["id"] for s in v["snapshots"]]
         byid_prev = {s["id"]: s for s in prev["snapshots"]}
         problem = None
@@ -217,25 +256,23 @@ def check_refinement(world, base, ops, run, topo):
             problem = "table uuid changed"
         if problem:
             prev_actor = run.flips[k - 1][1] if k else None
-            vios.append((f"not-serializable/{op['op']}-after-{ops[prev_actor]['op'] if prev_actor is not None else 'base'}",
+            vios.append((f"not-serializable/{op['op']}-after-{op_seq[prev_actor][0]['op'] if prev_actor is not None else 'base'}",
                          f"flip #{k + 1} by actor {aidx} ({op}) does not equal the previous version plus its operation: {problem}"))
             return vios
         prev = v
     # (b) acknowledgement <=> exactly one flip
-    for aidx, (oc, val) in enumerate(run.outcomes):
+    for aidx in op_seq:
         n = flips_by_actor.get(aidx, 0)
-        kind = ops[aidx]["op"]
-        if kind == "noop":
+        kinds = "+".join(o["op"] for o in op_seq[aidx])
+        if all(o["op"] == "noop" for o in op_seq[aidx]):
             continue
-        if oc == "ok":
-            attempted = not (kind == "delete_snapshot" and val is False)
-            if attempted and n != 1:
-                vios.append((f"ack-without-single-flip/{kind}", f"actor {aidx} ({kind}) returned success but flipped the pointer {n} times"))
-            if not attempted and n != 0:
-                vios.append((f"noop-flipped/{kind}", f"actor {aidx} returned False (nothing to do) but flipped {n} times"))
-        else:
-            if n != 0:
-                vios.append((f"raised-but-flipped/{kind}", f"actor {aidx} ({kind}) raised {type(val).__name__}: {str(val)[:80]} but flipped the pointer {n} times"))
+        want = len(acked[aidx])
+        if n != want:
+            raised = [f"{type(v).__name__}" for oc, v in res_seq[aidx] if oc == "raise"]
+            if n > want and raised:
+                vios.append((f"raised-but-flipped/{kinds}", f"actor {aidx} ({kinds}): {want} operation(s) acknowledged, {raised} raised, but it flipped the pointer {n} times"))
+            else:
+                vios.append((f"ack-without-single-flip/{kinds}", f"actor {aidx} ({kinds}) acknowledged {want} commit(s) but flipped the pointer {n} times"))
     # (c) final state
     try:
         final = read_view(fs)
@@ -295,10 +332,12 @@ def run_case(case):
             return out
         for oc, val in run.outcomes:
             out["labels"].append(f"outcome:{oc}" + (f":{type(val).__name__}" if oc == "raise" else ""))
+            if isinstance(val, list):
+                out["labels"].append("two-ops-one-handle")
         if stale_race(run):
             out["labels"].append("stale-base-race")
             out["nontrivial"] = True
-        if all(o["op"] in ("expire", "delete_snapshot", "set_prop") for o in sc["ops"]):
+        if all(o["op"] in ("expire", "delete_snapshot", "set_prop") and "then" not in o for o in sc["ops"]):
             out["labels"].append("all-metadata-only")
         out["violations"] = check_refinement(world, base, sc["ops"], run, sc["topology"])
         out["decisions"] = run.sched.decisions
@@ -316,6 +355,7 @@ FIXED = [
     {"world": "s3cas", "topology": "shared", "clock": "real", "nprior": 1, "ops": [{"op": "delete", "which": 0}, {"op": "append"}]},
 ]
 FIXED.insert(2, {"world": "local", "topology": "separate", "clock": "real", "nprior": 2, "ops": [{"op": "replace", "which": 0}, {"op": "append"}]})
+FIXED.insert(3, {"world": "local", "topology": "separate", "clock": "real", "nprior": 1, "ops": [{"op": "append", "then": {"op": "append"}}, {"op": "append", "then": {"op": "set_prop"}}]})
 
 
 def run_enum(task):
@@ -348,7 +388,11 @@ def pct_case(draw):
     ops = []
     for _ in range(n):
         k = draw(st.sampled_from(OPKINDS))
-        ops.append({"op": k, "which": draw(st.integers(0, 3))})
+        o = {"op": k, "which": draw(st.integers(0, 3))}
+        if draw(st.integers(0, 3)) == 0:
+            # a second operation through the same handle (state carried from one commit to the next)
+            o["then"] = {"op": draw(st.sampled_from(["append", "multi", "set_prop", "expire"])), "which": draw(st.integers(0, 3))}
+        ops.append(o)
     order = draw(st.permutations(list(range(n))))
     npre = draw(st.integers(0, 3))
     pre = [[draw(st.integers(1, 220)), draw(st.integers(0, n - 1))] for _ in range(npre)]
@@ -444,7 +488,7 @@ def plan(tier, seed):
     for sc in fixed:
         for s in range(ns):
             tasks.append({"kind": "enum", "sc": sc, "shard": s, "nshard": ns})
-    n = 60 if tier == "quick" else 2500
+    n = 45 if tier == "quick" else 2500
     for s in range(4 if tier == "quick" else 16):
         tasks.append({"kind": "pct", "n": n, "seed": seed * 1000 + s, "tier": tier})
     return tasks
